@@ -7,6 +7,8 @@ on real type objects whose vector widths and matrix shapes are *symbolic*
 (SymInt >= 1), so one run covers the whole internal type universe and beyond."""
 from __future__ import annotations
 
+import os
+
 import itertools
 
 import z3
@@ -487,9 +489,23 @@ def ir_desc(t):
 
 def compile_quiet(src, options=None):
     """-> (result|None, exception|None).  SystemExit (syntax error) is reported as exception."""
-    import io, contextlib
+    import io, contextlib, signal, threading
     from nsl import Compiler
     buf = io.StringIO()
+    # a compilation that does not come back within the budget is reported as a failure of that compilation (the real compiler takes
+    # milliseconds for these programs; a changed tree may loop, e.g. in the deferred replace bookkeeping of the optimiser)
+    budget = float(os.environ.get("VERIF_COMPILE_BUDGET", "30"))
+    use_alarm = threading.current_thread() is threading.main_thread() and budget > 0
+
+    class CompileTimeout(Exception):
+        pass
+
+    def on_alarm(signum, frame):
+        raise CompileTimeout(f"Compile did not return within {budget:g} s")
+
+    if use_alarm:
+        prev = signal.signal(signal.SIGALRM, on_alarm)
+        prev_timer = signal.setitimer(signal.ITIMER_REAL, budget)
     try:
         with contextlib.redirect_stdout(buf):
             r = Compiler.Compiler().Compile(src, options or {})
@@ -498,6 +514,12 @@ def compile_quiet(src, options=None):
         if isinstance(e, KeyboardInterrupt):
             raise
         return None, e
+    finally:
+        if use_alarm:
+            signal.setitimer(signal.ITIMER_REAL, 0)
+            signal.signal(signal.SIGALRM, prev)
+            if prev_timer and prev_timer[0] > 0:
+                signal.setitimer(signal.ITIMER_REAL, prev_timer[0])     # we were called inside a path with its own budget
 
 
 def _e2e_one(R, opname):
